@@ -3,7 +3,7 @@ CONSTANTS
   MaxReq = 2
   MinTicks = 2
   MaxTicks = 2
-  Payloads = {1, 2}
+  Payloads = {1}
   Variant = "intended"
 SPECIFICATION FairSpec
 INVARIANTS TypeOK CallbackAtMostOnce CancelledNeverCalled ExactlyOneFate FirstAcceptableReplyWins AllFailOnlyAfterAll AllFailedCompletes TimeoutOtherwise
